@@ -251,6 +251,7 @@ func checkC15(tier string) *Report {
 		}
 	}
 	rep.Extra["mutated_payloads"] = len(subset)
+	_ = w.payloadSeeds() // sets the mutator's corpus of known members
 	nm := 0
 	for _, c := range subset {
 		tree, err := jparse(c.Memo)
